@@ -119,3 +119,21 @@ PROPS['C02'] = dict(
     technique='property-based testing (rapidcheck) with a binary128 geometric containment oracle; edge/corner-targeted generators',
     assumptions=['cellToBoundary is the geometric reference (statement)', 'binary128 arithmetic error (1e-30) is negligible against the 2e-12 tolerance'],
 )
+
+PROPS['C05'] = dict(
+    src='props/C05.cpp', variants=['fast', 'asan'], level='exploration',
+    rule=('(origin, k): k=1 neighbourhoods compared with GEOMETRIC neighbours (latLngToCell of a point just across each boundary segment), symmetry, areNeighborCells on adjacent / '
+          'distance-2 / sibling / far pairs; whole family (gridDisk, gridDiskDistances, gridDiskDistancesSafe, three Unsafe disks, gridRingUnsafe, gridDisksUnsafe) against a reference '
+          'BFS over the geometric graph. Origins from the stress mixture (pentagon disks and icosahedron edges dominant, polar pentagons weighted). Complete strata: every cell of '
+          'res 0..2 (k=1), every res-0 origin x k<=12, every res-1 origin x k<=30, sampled res-2 origins x k up to 72 (disks wrapping the globe), every pentagon and pentagon '
+          'neighbour of every res x k<=5. non-trivial = the disk contains a pentagon or crosses a base-cell boundary (always for k=1 checks); distinct by (kind, origin, k, partner)'),
+    quick=dict(cases={'fast': 60_000, 'asan': 6_000}, enum={'fast': 8}),
+    thorough=dict(cases={'fast': 1_500_000, 'asan': 100_000}, enum={'fast': 16}),
+    strata=dict(quick=['all cells res 0..2: k=1 + areNeighborCells', 'res 0: all origins x k 0..12', 'res 1: all origins x k 0,3,..,30', 'res 2: sampled origins x k in {2,5,9,14,23,37,55,72}', 'all pentagons + neighbours, 16 res, k 0..5'],
+                thorough=['all cells res 0..3 (k=1)', 'res 1: all k 0..30', 'res 2: every 3rd origin of every base cell', 'pentagon neighbourhoods k 0..12']),
+    level_text=('the neighbour relation is re-derived from geometry (a path through the face/base-cell lookup tables that traversal does not use) and every member of the gridDisk family is compared '
+                'with a reference BFS on it; the unsafe variants must fail or return exactly the ring-ordered disk; buffers are exactly maxGridDiskSize(k) slots with guards/ASan'),
+    level_note='trusted: latLngToCell/cellToBoundary as geometric oracle of adjacency (validated by C02/C08); cells within a few dozen cell widths of a pole at res>=14 are unprobeable and discarded (counted)',
+    technique='property-based testing (rapidcheck): differential against a geometry-derived neighbour graph + reference BFS; exhaustive coarse resolutions',
+    assumptions=['geometric neighbour probes (engine/topo.hpp) define adjacency'],
+)
